@@ -436,9 +436,77 @@ fn dec(fmt: &str, hexs: &str) -> String {
     }
 }
 
+/// FNV-1a over bytes: the digest both sides print for outputs too long for a line.
+fn fnv(bs: &[u8]) -> u64 {
+    let mut h: u64 = 0xcbf29ce484222325;
+    for b in bs {
+        h ^= *b as u64;
+        h = h.wrapping_mul(0x100000001b3);
+    }
+    h
+}
+
+/// A large value of `n` elements whose LAST element differs from the rest, so that a decoder
+/// that stops early, or caps a count, cannot return an equal value.
+fn big_value(kind: &str, n: usize) -> Option<Value> {
+    Some(match kind {
+        "list" => Value::List((0..n).map(|i| Value::Int64(if i + 1 == n { 99 } else { (i % 7) as i64 })).collect::<Vec<_>>().into()),
+        "str" => Value::String((0..n).map(|i| if i + 1 == n { 'z' } else { 'a' }).collect::<String>().into()),
+        "bytes" => Value::Bytes((0..n).map(|i| if i + 1 == n { 0xfe } else { (i % 5) as u8 }).collect::<Vec<u8>>().into()),
+        "vec" => Value::Vector((0..n).map(|i| if i + 1 == n { 2.5f32 } else { 1.0f32 }).collect::<Vec<f32>>().into()),
+        "map" => {
+            let mut m = BTreeMap::new();
+            for i in 0..n {
+                m.insert(PropertyKey::new(format!("k{:06}", i)), Value::Int64(if i + 1 == n { 99 } else { 1 }));
+            }
+            Value::Map(Arc::new(m))
+        }
+        _ => return None,
+    })
+}
+
+/// `ser big <kind> <n> <fmt>`: encode, decode, compare, as digests.
+fn big_one(kind: &str, n: usize, fmt: &str) -> String {
+    let Some(v) = big_value(kind, n) else { return "bad-op".into() };
+    match fmt {
+        "spill" => {
+            let mut buf = Vec::new();
+            serialize_value(&v, &mut buf).unwrap();
+            let mut cur: &[u8] = &buf;
+            let back = match deserialize_value(&mut cur) {
+                Ok(b) => if tok2(&b) == tok2(&v) { "same".to_string() } else { format!("differs:{:016x}", fnv(tok2(&b).as_bytes())) },
+                Err(e) => io_err(&e),
+            };
+            format!("len={} fnv={:016x} back={} rest={}", buf.len(), fnv(&buf), back, cur.len())
+        }
+        "row" => {
+            // the value in the middle of a row: what follows a capped list is mis-parsed
+            let row = vec![Value::Int64(1), v.clone(), Value::Int64(2)];
+            let mut buf = Vec::new();
+            serialize_row(&row, &mut buf).unwrap();
+            let mut cur: &[u8] = &buf;
+            let back = match deserialize_row(&mut cur, 3) {
+                Ok(b) => if b.iter().map(tok2).collect::<Vec<_>>() == row.iter().map(tok2).collect::<Vec<_>>() { "same".to_string() } else { "differs".to_string() },
+                Err(e) => io_err(&e),
+            };
+            format!("len={} fnv={:016x} back={} rest={}", buf.len(), fnv(&buf), back, cur.len())
+        }
+        "bin" => {
+            let buf = v.serialize();
+            let back = match Value::deserialize(&buf) {
+                Ok(b) => if tok2(&b) == tok2(&v) { "same".to_string() } else { "differs".to_string() },
+                Err(e) => format!("err:{}", e),
+            };
+            format!("len={} fnv={:016x} back={} rest=0", buf.len(), fnv(&buf), back)
+        }
+        _ => "bad-op".into(),
+    }
+}
+
 pub fn run(args: &[&str]) -> String {
     let a = args.to_vec();
     guarded(move || match a.as_slice() {
+        ["big", kind, n, fmt] => n.parse().ok().map(|n| big_one(kind, n, fmt)).unwrap_or("bad-op".into()),
         ["meta"] => format!(
             "value={} f32={} keyval={} isize_max={}",
             std::mem::size_of::<Value>(),
@@ -637,6 +705,16 @@ pub fn generate(seed: u64, cases: usize, out: &mut Vec<String>) {
     let mut r = Rng::new(seed ^ 0x736572);
     out.push(format!("# case meta seed {}", seed));
     out.push("ser meta".into());
+    // element counts around the decoder's reservation cap and the u16 range, every container kind
+    for kind in ["list", "str", "bytes", "vec", "map"] {
+        for n in [1usize, 4095, 4096, 4097, 8193] {
+            for fmt in ["spill", "row", "bin"] {
+                out.push(format!("ser big {} {} {}", kind, n, fmt));
+            }
+        }
+    }
+    out.push("ser big list 65537 spill".into());
+    out.push("ser big bytes 65537 spill".into());
     let mut aborts = 0usize;
     for c in 0..cases {
         out.push(format!("# case {} seed {}", c, seed));
